@@ -31,14 +31,15 @@ theorem inv_lockPrelude (h k : Nat) : ∀ (fuel : Nat) (a : Api) (limit : Limit)
       · exact hstep
       · split
         · exact inv_dropAll _ _ hstep
-        · rename_i cands _ _ _
-          have hi2 := inv_runActs cands { a with s := (step a.s (.limitLookup h k n (List.range' h0 supplyLen))).1 }
+        · exact hstep
+        · exact hstep
+        · have hi2 := fun cands => inv_runActs cands { a with s := (step a.s (.limitLookup h k n (List.range' h0 supplyLen))).1 }
             (script.head?.getD defaultRound).acts hstep
           split
-          · exact hi2
+          · exact hi2 _
           · split
-            · exact hi2
-            · exact ih _ _ _ _ hi2
+            · exact hi2 _
+            · exact ih _ _ _ _ (hi2 _)
       · exact hstep
 
 theorem inv_lock (a : Api) (v : Variant) (h k : Nat) (limit : Limit) (h0 : Nat) (hi : Inv a.s) :
@@ -77,13 +78,44 @@ theorem inv_spollLoop (sid : Nat) : ∀ (fuel : Nat) (a : Api), Inv a.s → Inv 
         · apply ih; exact hip
         · exact hip
 
+theorem inv_resume (a : Api) (h : Nat) (su : Susp) (hi : Inv a.s) : Inv (a.resume h su).1.s := by
+  unfold Api.resume
+  simp only []
+  have hi2 := inv_runActs (su.cands.map Prod.fst) { a with susp := a.susp.filter fun (i, _) => i ≠ h }
+    (su.script.head?.getD defaultRound).acts hi
+  split
+  · exact hi2
+  · exact hi2
+  · exact hi2
+  · exact inv_lock _ su.v h su.k _ su.h0 hi2
+
+theorem inv_abandon (a : Api) (h : Nat) (su : Susp) (hi : Inv a.s) : Inv (a.abandon h su).s := by
+  unfold Api.abandon
+  exact inv_dropAll _ _ hi
+
 theorem inv_exec (a : Api) (c : Call) (hi : Inv a.s) : Inv (a.exec c).1.s := by
   cases c with
   | lock v h k limit h0 => exact inv_lock a v h k limit h0 hi
-  | poll h => exact inv_acquire a.s h hi
-  | cancel h => exact inv_cancelHandle a h hi
-  | op h g => exact inv_gop a.s h g hi
-  | drop h => exact inv_dropGuard a h hi
+  | poll h =>
+    simp only [Api.exec]
+    split
+    · exact inv_resume a h _ hi
+    · exact inv_acquire a.s h hi
+  | cancel h =>
+    simp only [Api.exec]
+    split
+    · exact inv_abandon a h _ hi
+    · exact inv_cancelHandle a h hi
+  | op h g =>
+    simp only [Api.exec]
+    split
+    · exact hi
+    · exact inv_gop a.s h g hi
+  | drop h =>
+    simp only [Api.exec]
+    split
+    · exact hi
+    · exact inv_dropGuard a h hi
   | count => exact hi
   | keys => exact hi
   | adv d => exact { hi with }
